@@ -116,10 +116,104 @@ class ClassInfo:
         return f"<class {self.qualname}>"
 
 
+def _canon_returns(tree: ast.AST) -> int:
+    """Normal form: `x = <e>` immediately followed by `return x`, with x bound once and read once in the function, is presented
+    to the rules as `return <e>` - the two spellings are the same program, and most rules read what a function returns."""
+    from collections import Counter
+    n = 0
+    for fn in ast.walk(tree):
+        if not isinstance(fn, (ast.FunctionDef, ast.AsyncFunctionDef)):
+            continue
+        loads = Counter(x.id for x in ast.walk(fn) if isinstance(x, ast.Name) and isinstance(x.ctx, ast.Load))
+        stores = Counter(x.id for x in ast.walk(fn) if isinstance(x, ast.Name) and not isinstance(x.ctx, ast.Load))
+        stack = [fn.body]
+        while stack:
+            body = stack.pop()
+            i = 0
+            while i + 1 < len(body):
+                a, b = body[i], body[i + 1]
+                tgt = a.targets[0] if isinstance(a, ast.Assign) and len(a.targets) == 1 else (
+                    a.target if isinstance(a, ast.AnnAssign) and a.value is not None else None)
+                if isinstance(tgt, ast.Name) and isinstance(b, ast.Return) and isinstance(b.value, ast.Name) and b.value.id == tgt.id \
+                        and loads[tgt.id] == 1 and stores[tgt.id] == 1 and not isinstance(a.value, (ast.Yield, ast.YieldFrom, ast.Await)):
+                    b.value = a.value
+                    del body[i]
+                    n += 1
+                    continue
+                i += 1
+            for st in body:
+                if isinstance(st, (ast.FunctionDef, ast.AsyncFunctionDef, ast.ClassDef)):
+                    continue
+                for fld in ("body", "orelse", "finalbody"):
+                    v = getattr(st, fld, None)
+                    if isinstance(v, list) and v and isinstance(v[0], ast.stmt):
+                        stack.append(v)
+                if isinstance(st, ast.Try):
+                    for h in st.handlers:
+                        stack.append(h.body)
+                if isinstance(st, ast.Match):
+                    for c in st.cases:
+                        stack.append(c.body)
+    return n
+
+
+def _canon_augassign(tree: ast.AST) -> int:
+    """Normal form: `t = t + e` / `t = t - e` (t a name or attribute, the same text on both sides) is presented to the rules as
+    `t += e` / `t -= e`, marked `from_binop` - for a container the two differ (`+=` extends in place, `t = t + e` rebinds), and the
+    aliasing rules read the mark."""
+    n = 0
+
+    class Aug(ast.NodeTransformer):
+        def visit_Assign(self, node):
+            nonlocal n
+            if len(node.targets) == 1 and isinstance(node.targets[0], (ast.Name, ast.Attribute)) and isinstance(node.value, ast.BinOp) \
+                    and isinstance(node.value.op, (ast.Add, ast.Sub)) and ast.dump(node.value.left).replace("Load()", "") == \
+                    ast.dump(node.targets[0]).replace("Store()", "").replace("Load()", ""):
+                n += 1
+                new = ast.copy_location(ast.AugAssign(target=node.targets[0], op=node.value.op, value=node.value.right), node)
+                new.from_binop = True
+                return new
+            return node
+
+    Aug().visit(tree)
+    return n
+
+
+def _canon_items(tree: ast.AST) -> int:
+    """Normal form: `for k in d:` whose first statement is `v = d[k]` (d a name or attribute chain, v bound nowhere else in the
+    loop) is presented to the rules as `for k, v in d.items():`."""
+    n = 0
+    for lp in ast.walk(tree):
+        if not (isinstance(lp, ast.For) and isinstance(lp.target, ast.Name) and lp.body and isinstance(lp.body[0], ast.Assign)):
+            continue
+        a = lp.body[0]
+        if len(a.targets) != 1 or not isinstance(a.targets[0], ast.Name) or not isinstance(a.value, ast.Subscript):
+            continue
+        d = lp.iter
+        if isinstance(d, ast.Call) and isinstance(d.func, ast.Attribute) and d.func.attr == "keys" and not d.args:
+            d = d.func.value
+        if not all(isinstance(x, (ast.Name, ast.Attribute, ast.Load)) for x in ast.walk(d)):
+            continue
+        if ast.dump(a.value.value) != ast.dump(d) or not (isinstance(a.value.slice, ast.Name) and a.value.slice.id == lp.target.id):
+            continue
+        v = a.targets[0]
+        if v.id == lp.target.id or sum(1 for x in ast.walk(lp) if isinstance(x, ast.Name) and x.id == v.id and not isinstance(x.ctx, ast.Load)) != 1:
+            continue
+        lp.target = ast.copy_location(ast.Tuple(elts=[ast.Name(id=lp.target.id, ctx=ast.Store()), v], ctx=ast.Store()), lp.target)
+        lp.iter = ast.copy_location(ast.Call(func=ast.Attribute(value=d, attr="items", ctx=ast.Load()), args=[], keywords=[]), lp.iter)
+        del lp.body[0]
+        if not lp.body:
+            lp.body.append(ast.copy_location(ast.Pass(), a))
+        ast.fix_missing_locations(lp)
+        n += 1
+    return n
+
+
 class Index:
     def __init__(self, repo: str = REPO, overlay: Optional[Dict[str, str]] = None):
         self.repo = repo
         self.overlay = overlay or {}
+        self.canonicalised = 0  # `x = e; return x` pairs presented to the rules as `return e`
         self.modules: Dict[str, ModuleInfo] = {}
         self.by_path: Dict[str, ModuleInfo] = {}
         self.classes: Dict[str, ClassInfo] = {}
@@ -151,6 +245,7 @@ class Index:
                 tree = ast.parse(src, filename=rel)
             except SyntaxError as e:
                 raise AnalysisError(f"cannot parse {rel}: {e}")
+            self.canonicalised += _canon_returns(tree) + _canon_augassign(tree) + _canon_items(tree)
             modname = rel[len("src/") : -3].replace("/", ".")
             if modname.endswith(".__init__"):
                 modname = modname[: -len(".__init__")]
